@@ -53,6 +53,8 @@ TargetTables ==
   { [name |-> "default-only", targets |-> <<>>],
     [name |-> "named", targets |-> << [name |-> "w1", type |-> "http", data |-> "{\"url\":\"http://w1.test/\"}"] >>],
     [name |-> "shadow-url", targets |-> << [name |-> "poll://g1/i1", type |-> "http", data |-> "{\"url\":\"http://shadow.test/\"}"] >>],
+    \* a configured target named "default" replaces the built-in one (poll group "default")
+    [name |-> "default-configured", targets |-> << [name |-> "default", type |-> "poll", data |-> "{\"group\":\"workers\",\"id\":\"w9\"}"] >>],
     [name |-> "unknown-plugin", targets |-> << [name |-> "w1", type |-> "smoke-signal", data |-> "{}"] >>] }
 
 \* stored receivers handed to the sender: [recv, kind, ...]
